@@ -199,6 +199,38 @@ Theorem C15_refines_selection_partial : forall ls : list (list dependency),
 Proof. exact Project_proofs.selection_refines. Qed.
 Print Assumptions C15_refines_selection_partial.
 
+(* ... and the hypothesis cannot be dropped: one POM declaring g:a twice (versions 1 and 2) - the Go
+   dedupe keeps 1, Maven's selection 2.  The same lineage run through the whole pipeline on the Go
+   code is the witness of F-C15-1 (known/C15.jsonl, replayed on every run). *)
+Theorem C15_refines_selection_refuted :
+  let ls := [[Project_proofs.dep_ga [49]; Project_proofs.dep_ga [50]]] in
+  dedupe_into [] (concat ls)
+  <> map MavenModelSpec.with_type (MavenModelSpec.select (concat ls) (flat_map (fun lv => rev lv) ls)).
+Proof. exact Project_proofs.selection_differs. Qed.
+Print Assumptions C15_refines_selection_refuted.
+
+(* Dependency-management injection, for EVERY project and EVERY lookup of imported management:
+   ProcessDependencies yields the first declaration of every dependency, each changed exactly by
+   the rule - own version / scope / exclusions win, the managed entry's value fills an empty one,
+   the optional flag, group, artifact, type and classifier are never managed, no managed entry no
+   change - against the managed list it also returns, which has one entry per identity. *)
+Theorem C15_injection_rule : forall get (p : project) deps m,
+  process_dependencies get p = Ok (deps, m) ->
+  NoDup (map dep_key m) /\
+  Forall2 (Imports_proofs.injection_rule m) (dedupe_into [] (p_deps p)) deps.
+Proof. exact Imports_proofs.process_dependencies_injection. Qed.
+Print Assumptions C15_injection_rule.
+
+(* the rule at work: own exclusions survive a managed entry, empty ones are filled; version and
+   scope likewise; optional stays *)
+Example C15_injection_rule_example :
+  let dm := mkDep [103] [97] [50] s_jar [] [116] [116;114;117;101] [([120], [121])] in
+  let own := mkDep [103] [97] [] [] [] [] [] [([104], [42])] in
+  let bare := mkDep [103] [97] [49] [] [] [114] [] [] in
+  fill_in [dm] own = mkDep [103] [97] [50] [] [] [116] [] [([104], [42])] /\
+  fill_in [dm] bare = mkDep [103] [97] [49] [] [] [114] [] [([120], [121])].
+Proof. exact Imports_proofs.injection_rule_inhabited. Qed.
+
 (* R8: the fill-in of ProcessDependencies is Maven's injection; only empty fields change *)
 Theorem C15_management_fill_in : forall m d, fill_in m d = MavenModelSpec.inject m d.
 Proof. exact Project_proofs.fill_in_is_inject. Qed.
